@@ -43,10 +43,15 @@ type c07Tie struct {
 	removed     map[int64]int
 	viol        []string
 	history     []string // last messages, for replays
+
+	watchVid     int64          // version an iterator pins (-1: none)
+	watchFiles   map[int64]bool // its tables
+	watchDeleted int            // how many of them the delta of that version deletes
+	watchSeen    bool
 }
 
 func newC07Tie(c *Ctx, st *stor.Stor) *c07Tie {
-	return &c07Tie{c: c, st: st, live: map[int64]map[int64]bool{}, recoveryDup: map[int64]bool{}, removed: map[int64]int{}}
+	return &c07Tie{c: c, st: st, live: map[int64]map[int64]bool{}, recoveryDup: map[int64]bool{}, removed: map[int64]int{}, watchVid: -1}
 }
 
 func i64s(xs []int64) string {
@@ -159,6 +164,14 @@ func (t *c07Tie) onEvent(ev Event) {
 				dup = true
 			}
 			seen[a] = true
+		}
+		if vid == t.watchVid && !t.watchSeen {
+			t.watchSeen = true
+			for _, x := range deleted {
+				if t.watchFiles[x] {
+					t.watchDeleted++
+				}
+			}
 		}
 		if dup {
 			t.dupDeltas++
@@ -358,6 +371,14 @@ func c07Pinned(c *Ctx, r *rng.R, idx int) (stop bool) {
 	})
 	leveldb.VerifSink = func(point string, args []interface{}) { tie.onEvent(Event{point, args}) }
 	defer UninstallSink()
+	defer func() { // also on the early exits: complete the trace and report what the live-table oracles saw
+		tie.Flush()
+		for _, v := range tie.takeViolations() {
+			parts := strings.SplitN(v, "\x00", 2)
+			c.Res.Violate(parts[0], parts[1], map[string]interface{}{"scenario": replay, "last_messages": tie.history})
+			stop = true
+		}
+	}()
 	db, err := leveldb.Open(st, o.Options())
 	if err != nil {
 		c.Res.Violate("open:error", err.Error(), replay)
@@ -378,22 +399,71 @@ func c07Pinned(c *Ctx, r *rng.R, idx int) (stop bool) {
 		m[string(k)] = string(v)
 		return true
 	}
-	for i := 0; i < 80; i++ {
-		if !put() {
+	// build a version with tables on at least two levels and nothing in the buffers: write, settle, reopen
+	// (journal recovery flushes what is left), until the shape is right
+	strict := idx%2 == 0 // strict: the iterator is not touched before the final walk
+	var dump *leveldb.VerifState
+	levelsWithTables := 0
+	for attempt := 0; attempt < 6; attempt++ {
+		for i := 0; i < 70+r.Intn(60); i++ {
+			if !put() {
+				db.Close()
+				return true
+			}
+		}
+		leveldb.VerifWaitIdle(db)
+		if err := db.Close(); err != nil {
+			c.Res.Violate("close:error", err.Error(), replay)
 			return true
 		}
+		db, err = leveldb.Open(st, o.Options())
+		if err != nil {
+			c.Res.Violate("reopen:error", err.Error(), replay)
+			return true
+		}
+		leveldb.VerifWaitIdle(db)
+		dump = leveldb.VerifDump(db)
+		levelsWithTables = 0
+		for _, l := range dump.Version.Levels {
+			if len(l) > 0 {
+				levelsWithTables++
+			}
+		}
+		if len(dump.Mem) == 0 && !dump.HasFrozen && levelsWithTables >= 2 {
+			break
+		}
 	}
-	leveldb.VerifWaitIdle(db)
-	// pin: an iterator (and a snapshot iterator) over the current state
+	// pin: an iterator over the current state, created while the buffers are empty; it is not walked now, so the
+	// tables of its version have not been opened through it
 	frozen := m.clone()
 	it := db.NewIterator(nil, nil)
-	dump := leveldb.VerifDump(db)
+	dump = leveldb.VerifDump(db)
 	pinMu.Lock()
 	for _, f := range versionFiles(dump.Version) {
 		pinned[f] = true
 	}
 	npinned := len(pinned)
 	pinMu.Unlock()
+	tie.mu.Lock()
+	tie.watchVid, tie.watchSeen, tie.watchDeleted = dump.Version.ID, false, 0
+	tie.watchFiles = map[int64]bool{}
+	for f := range pinned {
+		tie.watchFiles[f] = true
+	}
+	tie.mu.Unlock()
+	// the very next version must DELETE tables of the pinned one: compact everything right away
+	if err := db.CompactRange(util.Range{}); err != nil {
+		c.Res.Violate("compact:error", err.Error(), replay)
+	}
+	leveldb.VerifWaitIdle(db)
+	tie.mu.Lock()
+	firstDeletes := tie.watchDeleted
+	tie.mu.Unlock()
+	if firstDeletes > 0 {
+		c.Res.Count("pinned", "next-version-deletes-pinned-tables")
+	} else {
+		c.Res.Count("pinned", "next-version-deletes-nothing")
+	}
 	tie.mu.Lock()
 	base := tie.installs
 	tie.mu.Unlock()
@@ -410,7 +480,19 @@ func c07Pinned(c *Ctx, r *rng.R, idx int) (stop bool) {
 			i++
 		}
 		if i != len(ks) || it.Error() != nil {
-			c.Res.Violate("helditer:contents", fmt.Sprintf("%s after %d version changes: iterator ended after %d of %d pairs, err=%v", tag, changes(), i, len(ks), it.Error()), replay)
+			c.Res.Violate("helditer:contents", fmt.Sprintf("%s after %d version changes: forward walk ended after %d of %d pairs, err=%v", tag, changes(), i, len(ks), it.Error()), replay)
+			return false
+		}
+		i = len(ks) - 1
+		for ok := it.Last(); ok; ok = it.Prev() {
+			if i < 0 || string(it.Key()) != ks[i] || string(it.Value()) != frozen[ks[i]] {
+				c.Res.Violate("helditer:contents", fmt.Sprintf("%s after %d version changes: backward walk, position %d holds %x, creation-time contents say %q", tag, changes(), i, it.Key(), safeIdx(ks, i)), replay)
+				return false
+			}
+			i--
+		}
+		if i != -1 || it.Error() != nil {
+			c.Res.Violate("helditer:contents", fmt.Sprintf("%s after %d version changes: backward walk stopped with %d of %d pairs left, err=%v", tag, changes(), i+1, len(ks), it.Error()), replay)
 			return false
 		}
 		return true
@@ -428,7 +510,7 @@ func c07Pinned(c *Ctx, r *rng.R, idx int) (stop bool) {
 		case x < 38:
 			db.CompactRange(util.Range{})
 		default:
-			if !walk("mid-run") {
+			if !strict && !walk("mid-run") {
 				it.Release()
 				db.Close()
 				return true
@@ -439,7 +521,7 @@ func c07Pinned(c *Ctx, r *rng.R, idx int) (stop bool) {
 	nch := changes()
 	ok := walk("final")
 	c.Res.Count("pinned", fmt.Sprintf("version-changes>=%d", (nch/100)*100))
-	c.Res.Eval(fmt.Sprintf("pinned/%d/%d/%d", idx, nch, npinned), nch >= 300 && npinned > 0)
+	c.Res.Eval(fmt.Sprintf("pinned/%d/%d/%d/%d", idx, nch, npinned, firstDeletes), nch >= 300 && npinned > 0 && firstDeletes > 0)
 	pinMu.Lock()
 	pinned = map[int64]bool{}
 	pinMu.Unlock()
@@ -477,7 +559,7 @@ func c07Pinned(c *Ctx, r *rng.R, idx int) (stop bool) {
 	}
 	tie.fileRefs(db)
 	if len(c.Res.Samples) < 3 {
-		c.Res.Sample(map[string]interface{}{"kind": "pinned-iterator", "version_changes_while_pinned": nch, "pinned_tables": npinned, "table_bytes_before_delete_all": before, "after": after, "refloop_messages": tie.msgs})
+		c.Res.Sample(map[string]interface{}{"kind": "pinned-iterator", "strict": strict, "levels_with_tables_at_pin": levelsWithTables, "pinned_tables_deleted_by_next_version": firstDeletes, "version_changes_while_pinned": nch, "pinned_tables": npinned, "table_bytes_before_delete_all": before, "after": after, "refloop_messages": tie.msgs})
 	}
 	db.Close()
 	tie.Flush()
@@ -560,7 +642,7 @@ func c07FileDiff(db *leveldb.DB, st *stor.Stor) (extra, missing []string) {
 }
 
 func runC07(c *Ctx) {
-	c.Res.Rule = "(1) DB programs biased to flushes, compactions, long-held iterators, discarded transactions and reopen (tiny buffers); every message of the real reference loop (f.ref/f.delta/f.rel/f.abandon hook events) is replayed through Model/RefLoop.lean and the tables the loop removes after each message must be the model's; oracles on the implementation: no table of a referenced-and-unreleased version is removed (loop decision and storage.Remove), held iterators are re-walked against their creation-time contents, storage == live tables + journal(s) + manifest at settled points and after reopen; non-trivial = tables were removed by the loop; (2) an iterator held across ≥ 300 version installs (more than maxCachedNumber cached version tasks: conversion to full references), tables live at its creation must stay in storage until it is released, then storage must shrink to the live set, and after delete-all + CompactRange(all) the table bytes must fall below 2 blocks + 512; the loop's counters (VerifFileRefs) are compared with the model at idle points"
+	c.Res.Rule = "(1) DB programs biased to flushes, compactions, long-held iterators, discarded transactions and reopen (tiny buffers); every message of the real reference loop (f.ref/f.delta/f.rel/f.abandon hook events) is replayed through Model/RefLoop.lean and the tables the loop removes after each message must be the model's; oracles on the implementation: no table of a referenced-and-unreleased version is removed (loop decision and storage.Remove), held iterators are re-walked against their creation-time contents, storage == live tables + journal(s) + manifest at settled points and after reopen; non-trivial = tables were removed by the loop; (2) an iterator created on a just reopened DB (empty buffers, tables on ≥ 2 levels) and not touched, a CompactRange(all) right after so that the next version deletes tables of the pinned one, then ≥ 300 further version installs (more than maxCachedNumber cached version tasks: conversion to full references), tables live at its creation must stay in storage until it is released, the iterator is finally walked forwards and backwards against its creation-time contents, then storage must shrink to the live set, and after delete-all + CompactRange(all) the table bytes must fall below 2 blocks + 512; the loop's counters (VerifFileRefs) are compared with the model at idle points"
 	w := DefaultWeights
 	w.Put, w.Del, w.Write = 40, 14, 8
 	w.Compact, w.Settle, w.Tx, w.Iter, w.Snap = 8, 6, 5, 10, 3
@@ -593,7 +675,7 @@ func runC07(c *Ctx) {
 			return
 		}
 	}
-	np := c.Scale(3, 24)
+	np := c.Scale(4, 32)
 	for i := 0; i < np && c.TimeLeft() && !c.Hung; i++ {
 		if c07Pinned(c, c.R.Fork(), i) {
 			return
